@@ -8,8 +8,39 @@ The first line carries ` | interval=<ns> slots=<n>` (the real wheel's parameters
 -/
 import GoZero.Base.Trace
 import GoZero.C16.SpecCache
+import GoZero.C16.ModelApi
 namespace GoZero.C16
 open GoZero
+
+/-- the option list of the section header: `opts=L3,N2,L0` = WithLimit(3), WithName("n2"), WithLimit(0) (`-` = none);
+older traces carry `limit=<n>` alone (= one WithLimit).  none = unparsable. -/
+def cacheOptsOf (cfg : List String) : Option (List CacheOpt) :=
+  let spec := kvStr cfg "opts"
+  if spec = "" then some [CacheOpt.withLimit (kvInt cfg "limit" 0)]
+  else if spec = "-" then some []
+  else (spec.splitOn ",").mapM fun tok =>
+    if tok.startsWith "L" then (tok.drop 1).toString.toInt?.map CacheOpt.withLimit
+    else if tok.startsWith "N" then (tok.drop 1).toString.toNat?.map CacheOpt.withName
+    else none
+
+def cacheLimitOf (cfg : List String) : Nat := effLimit ((cacheOptsOf cfg).getD [])
+
+/-- loader kinds of the `take` op -/
+def loadOf (f : String) (v : Nat) : Option Load :=
+  match f with
+  | "ok" => some (.value v)
+  | "fail" => some .error
+  | "nilerr" => some .typedNilError
+  | "panice" => some .panicError
+  | "panics" => some .panicValue
+  | "goexit" => some .goexit
+  | _ => none
+
+def takeRetS : TakeRet → String
+  | .val v => toString v
+  | .err => "err"
+  | .panics => "panic"
+  | .exits => "goexit"
 
 def keysS (l : List Nat) : String := if l.isEmpty then "-" else ",".intercalate (l.map toString)
 
@@ -17,7 +48,9 @@ def outEvents (o : CacheOut) : String := s!"evict={keysS o.evicted} expired={key
 
 def runCache (r : Report) (s : Section) : Report := Id.run do
   -- `WithLimit(limit)` installs a keyLru only for limit > 0; zero and negative limits mean "no limit"
-  let limit := (kvInt s.cfg "limit" 0).toNat
+  let optsO := cacheOptsOf s.cfg
+  let opts := optsO.getD []
+  let limit := effLimit opts
   let expireI := kvInt s.cfg "expire" 0
   let firstObs := match s.lines.head? with | some l => l.obs | none => []
   let interval := kvNat firstObs "interval" 0
@@ -25,11 +58,22 @@ def runCache (r : Report) (s : Section) : Report := Id.run do
   let mut r := r
   if s.lines.isEmpty then return r
   if interval = 0 ∨ slots = 0 then return r.mismatch s.idx 0 "interval=… slots=… on the first line" (joinSp firstObs)
-  let mut c : Cache := Cache.new limit slots
+  if optsO.isNone then return r.mismatch s.idx 0 "opts=L<int>,N<nat>,…" (joinSp s.cfg)
+  -- the option loop of NewCache (`cacheCfg`): which limit is in force, which name reached newCacheStat
+  r := r.addCover (if opts.isEmpty then "cache-opts-none" else if opts.length = 1 then "cache-opts-1" else "cache-opts-several")
+  if (opts.filterMap CacheOpt.posLimit).length ≥ 2 then r := r.addCover "cache-opts-limit-replaced"
+  if limit > 0 ∧ (opts.getLast?.map CacheOpt.posLimit) = some none then r := r.addCover "cache-opts-limit-kept-after-later-option"
+  if opts.any (fun o => match o with | .withLimit l => l ≤ 0 | _ => false) ∧ limit > 0 then r := r.addCover "cache-opts-nonpositive-limit-beside-positive"
+  if opts.any (fun o => match o with | .withName _ => true | _ => false) then
+    r := r.addCover (if (cacheCfg opts).name = 0 then "cache-opts-name-empty" else "cache-opts-name")
+  let wantName := if effName 0 opts = 0 then "proc" else s!"n{effName 0 opts}"
+  if kvStr firstObs "name" ≠ "" ∧ (kvStr firstObs "name" ≠ wantName ∨ kvStr firstObs "sname" ≠ wantName) then
+    r := r.mismatch s.idx 0 s!"name={wantName} sname={wantName}" (joinSp firstObs)
+  let mut c : Cache := Cache.newApi opts slots
   let mut a : Spec.ACache := Spec.ACache.new limit
   let mut hit := 0
   let mut miss := 0
-  if kvInt s.cfg "limit" 0 < 0 then r := r.addCover "cache-limit-negative"
+  if opts.any (fun o => match o with | .withLimit l => l < 0 | _ => false) then r := r.addCover "cache-limit-negative"
   if expireI ≤ 0 then r := r.addCover "cache-default-expiry-nonpositive"
   for l in s.lines do
     r := { r with ops := r.ops + 1 }
@@ -53,6 +97,24 @@ def runCache (r : Report) (s : Section) : Report := Id.run do
           r.violation s.idx l.idx s!"struct=cache op=[{joinSp l.op}] expiry {nsI} outside [0.95,1.05]*{base}" else r
       if 20 * ns ≤ 19 * base + 20 then r.addCover "cache-jitter-low-end"
       else if 20 * ns + 20 ≥ 21 * base then r.addCover "cache-jitter-high-end" else r
+    -- the property's words "evicts in least-recently-used order / never more than its limit", on what the REAL cache
+    -- reported: an eviction is due only when a NEW key arrives at a cache that already holds `limit` live entries
+    -- (`a` = the reference cache before the operation); anything else evicts a live entry for no reason (e.g. a
+    -- recency list that still carries keys which are gone)
+    let evictClause := fun (r : Report) (k : Nat) =>
+      let ev := kvStr obs "evict"
+      if ev ≠ "" ∧ ev ≠ "-" ∧ (limit = 0 ∨ a.data.length < limit ∨ ahas a.data k) then
+        r.violation s.idx l.idx s!"struct=cache op=[{joinSp l.op}] evicted {ev} although the cache held {a.data.length} live entries (limit {limit}) and key {k} was {if ahas a.data k then "cached" else "new"}: no eviction is due"
+      else r
+    -- "evicts in least-recently-used order": when an eviction IS due, the victim the real cache reports must be the
+    -- least recently used key of the reference cache
+    let lruClause := fun (r : Report) (ao : CacheOut) =>
+      let ev := kvStr obs "evict"
+      match ao.evicted with
+      | [old] => if ev ≠ "" ∧ ev ≠ "-" ∧ ev ≠ toString old then
+          r.violation s.idx l.idx s!"struct=cache op=[{joinSp l.op}] evicted {ev}, but the least recently used key is {old} (recency, oldest last: {keysS a.lru})"
+        else r
+      | _ => r
     -- `setd k v rand` = Cache.Set: SetWithExpire with the configured default expiry
     let lop := match l.op with
       | ["setd", k, v, j] => ["set", k, v, toString expireI, j]
@@ -73,6 +135,8 @@ def runCache (r : Report) (s : Section) : Report := Id.run do
         let (c', o) := if nsI ≤ 0 then CacheG.setNoTimer C12.step c k v else c.step (.set k v ticks)
         let (a', ao) := if nsI ≤ 0 then CacheG.setNoTimer C12.Spec.step a k v else a.step (.set k v ticks)
         if ¬ o.evicted.isEmpty then r := r.addCover "cache-evict"
+        r := evictClause r k
+        r := lruClause r ao
         r := judge r s!"ns={nsI} {outEvents o}" s!"ns={nsI} {outEvents ao}"
         if ao.evicted.length > 0 ∧ a.data.length < limit then
           r := r.violation s.idx l.idx s!"struct=cache evicted below the limit op=[{joinSp l.op}]"
@@ -84,6 +148,7 @@ def runCache (r : Report) (s : Section) : Report := Id.run do
         let (c', o) := c.step (.get k)
         let (a', ao) := a.step (.get k)
         r := r.addCover (if o.result.isSome then "cache-get-hit" else "cache-get-miss")
+        if o.result = some 0 then r := r.addCover "cache-get-hit-nil-value"
         if ao.result.isSome then hit := hit + 1 else miss := miss + 1
         let f := fun (x : Option Nat) => match x with | some v => toString v | none => "none"
         r := judge r (f o.result) (f ao.result)
@@ -99,19 +164,28 @@ def runCache (r : Report) (s : Section) : Report := Id.run do
     | ["take", k, v, f, _] =>
       match k.toNat?, v.toNat? with
       | some k, some v =>
-        if f ≠ "ok" ∧ f ≠ "fail" then r := r.mismatch s.idx l.idx "bad-op" (joinSp l.op) else
+        match loadOf f v with
+        | none => r := r.mismatch s.idx l.idx "bad-op" (joinSp l.op)
+        | some ld =>
+        -- every way the loader can end (`Load`, `take_every_loader_outcome`): anything but a value leaves the cache
+        -- as it was and reaches the caller as an error / panic / exit; on a hit the loader's kind is immaterial
+        let fails := ld.fails
         let ticks := ns / interval
         r := jitter r expireI
-        let (c', o) := if nsI ≤ 0 then CacheG.takeNoTimer C12.step c k v (f = "fail") else c.step (.take k v (f = "fail") ticks)
-        let (a', ao) := if nsI ≤ 0 then CacheG.takeNoTimer C12.Spec.step a k v (f = "fail") else a.step (.take k v (f = "fail") ticks)
+        let (c', o) := if nsI ≤ 0 then CacheG.takeNoTimer C12.step c k ld.val fails else CacheG.takeL C12.step c k ld ticks
+        let (a', ao) := if nsI ≤ 0 then CacheG.takeNoTimer C12.Spec.step a k ld.val fails else CacheG.takeL C12.Spec.step a k ld ticks
         -- statistics: found = hit, loaded = miss, load failed = neither
-        if ¬ ao.loaded then hit := hit + 1 else if f ≠ "fail" then miss := miss + 1
-        if nsI ≤ 0 ∧ ao.loaded ∧ f ≠ "fail" then r := r.addCover "cache-take-load-nonpositive-expiry"
-        r := r.addCover (if ¬ o.loaded then "cache-take-hit" else if f = "fail" then "cache-take-load-fails" else "cache-take-load")
-        let fmt := fun (o : CacheOut) =>
-          let res := match o.result with | some x => toString x | none => "err"
-          s!"{res} calls={if o.loaded then 1 else 0} ns={nsI} {outEvents o}"
-        r := judge r (fmt o) (fmt ao)
+        if ¬ ao.loaded then hit := hit + 1 else if ¬ fails then miss := miss + 1
+        if nsI ≤ 0 ∧ ao.loaded ∧ ¬ fails then r := r.addCover "cache-take-load-nonpositive-expiry"
+        r := r.addCover (if ¬ o.loaded then "cache-take-hit" else if fails then "cache-take-load-fails" else "cache-take-load")
+        r := r.addCover s!"cache-take-loader-{f}-{if o.loaded then "miss" else "hit"}"
+        if o.loaded ∧ ¬ fails ∧ v = 0 then r := r.addCover "cache-take-load-nil-value"
+        if ¬ o.loaded ∧ o.result = some 0 then r := r.addCover "cache-take-hit-nil-value"
+        let fmt := fun (ret : TakeRet) (o : CacheOut) =>
+          s!"{takeRetS ret} calls={if o.loaded then 1 else 0} ns={nsI} {outEvents o}"
+        r := evictClause r k
+        r := lruClause r ao
+        r := judge r (fmt (CacheG.takeRet c k ld) o) (fmt (CacheG.takeRet a k ld) ao)
         -- the property's words: the loader runs only on a miss
         if kvNat obs "calls" 0 > 0 ∧ (alookup a.data k).isSome then
           r := r.violation s.idx l.idx s!"struct=cache loader called on a hit op=[{joinSp l.op}]"
